@@ -290,6 +290,17 @@ def cons_z3(c, env, eps=0):
 EXP_KINDS = ('exp', 'log', 'pexp', 'plog', 'softplus', 'entropy', 'sumexp', 'sumlog', 'kldiv')
 
 
+def _cone(env, a, b, c):
+    """Cone membership (a, b, c) in K_exp.  With env.cones (a list) set, the membership is RELAXED to its linear
+    consequences b >= 0, c >= 0, b >= a + c and the triple is recorded, so that the caller can add pairing inequalities
+    (only sound where the membership is a hypothesis)."""
+    z3 = env.z3
+    if getattr(env, 'cones', None) is not None:
+        env.cones.append((a, b, c))
+        return z3.And(b >= 0, c >= 0, b >= a + c)          # c*e^{a/c} >= c*(1 + a/c)
+    return expcone(z3, a, b, c)
+
+
 def exp_le(a, env):
     """k*phi(arg) + off <= 0 for the exponential-cone atoms, in cone normal form (documented identities):
        exp      (k>0)  exp(e) <= -off/k                      <=>  (e, -off/k, 1) in K
@@ -316,23 +327,31 @@ def exp_le(a, env):
     kinv = z3.RealVal(str(1 / abs(k)))
     if kind == 'exp':
         for e, o in zip(args, offs):
-            out.append(expcone(z3, e, -o * kinv, one))
+            out.append(_cone(env, e, -o * kinv, one))
     elif kind == 'log':
         for e, o in zip(args, offs):
-            out.append(expcone(z3, o * kinv, e, one))
+            out.append(_cone(env, o * kinv, e, one))
     elif kind in ('pexp', 'plog'):
         sc = [env.p(p) for p in parr(a.params).reshape(-1)]
         if len(sc) == 1:
             sc = sc * len(args)
         for e, o, s_ in zip(args, offs, sc):
-            out.append(expcone(z3, e, -o * kinv, s_) if kind == 'pexp' else expcone(z3, o * kinv, e, s_))
+            out.append(_cone(env, e, -o * kinv, s_) if kind == 'pexp' else _cone(env, o * kinv, e, s_))
     elif kind == 'softplus':
         for e, o in zip(args, offs):
             oo = o * kinv
+            if getattr(env, 'cones', None) is not None:
+                t1, t2 = env.new('t'), env.new('t')
+                out += [_cone(env, e + oo, t1, one), _cone(env, oo, t2, one), t1 + t2 <= 1]
+                continue
             f1, f2 = PHI()(e + oo, one), PHI()(oo, one)
             out += [f1 + f2 <= 1, f1 > 0, f2 > 0]
     elif kind == 'sumexp':
         # sum_i exp(e_i) <= -off/k
+        if getattr(env, 'cones', None) is not None:
+            ts = [env.new('t') for _ in args]
+            out += [_cone(env, e, t, one) for e, t in zip(args, ts)] + [z3.Sum(ts) <= -offs[0] * kinv]
+            return out
         fs = [PHI()(e, one) for e in args]
         out += [z3.Sum(fs) <= -offs[0] * kinv] + [f > 0 for f in fs]
     elif kind == 'sumlog':
@@ -342,7 +361,7 @@ def exp_le(a, env):
         for e in args:
             w = env.new('w')
             ws.append(w)
-            out.append(expcone(z3, w, e, one))
+            out.append(_cone(env, w, e, one))
         out.append(z3.Sum(ws) >= g)
         env.exist = getattr(env, 'exist', []) + [(w, 'sumlog', e) for w, e in zip(ws, args)]
     elif kind == 'kldiv':
@@ -355,7 +374,7 @@ def exp_le(a, env):
             w = env.new('w')
             ws.append(w)
             qi = z3.RealVal(str(1 / q))
-            out.append(expcone(z3, w, one, e * qi))          # w stands for -w_i/q_i (keeps the bound variable bare)
+            out.append(_cone(env, w, one, e * qi))          # w stands for -w_i/q_i (keeps the bound variable bare)
         out.append(z3.Sum([-z3.RealVal(str(q)) * w for w, q in zip(ws, qs)]) <= r)
         env.exist = getattr(env, 'exist', []) + [(w, 'kldiv', e) for w, e in zip(ws, args)]
     elif kind == 'entropy':
@@ -364,10 +383,64 @@ def exp_le(a, env):
         for i, e in enumerate(args):
             w = env.new('w')
             ws.append(w)
-            out.append(expcone(z3, w, one, e))
+            out.append(_cone(env, w, one, e))
         out.append(z3.Sum(ws) >= g)
         env.exist = getattr(env, 'exist', []) + [(w, 'entropy', e) for w, e in zip(ws, args)]
     return out
+
+
+def exp_normal(a, fresh):
+    """Poly-level cone normal form of  k*phi(arg) + off <= 0  for the exponential-cone atoms (same identities as
+    exp_le).  Returns (triples, ineqs): triples of Poly (x, y, z) meaning (x, y, z) in K_exp, ineqs of Poly g
+    meaning g >= 0; existential auxiliaries are Poly variables obtained from fresh(tag)."""
+    kind, k = a.kind, a.k
+    args = list(a.arg.reshape(-1))
+    offs = list(a.off.reshape(-1))
+    if kind in ('exp', 'log', 'pexp', 'plog', 'softplus'):
+        args = _bcast_phi(a, args)
+    if kind in ('exp', 'pexp', 'softplus', 'sumexp', 'kldiv') and k <= 0 or \
+            kind in ('log', 'plog', 'entropy', 'sumlog') and k >= 0:
+        raise ValueError('non-convex use in the oracle')
+    kinv = 1 / abs(k)
+    one = Poly.const(1)
+    T, G = [], []
+    if kind == 'exp':
+        T = [(e, -o * kinv, one) for e, o in zip(args, offs)]
+    elif kind == 'log':
+        T = [(o * kinv, e, one) for e, o in zip(args, offs)]
+    elif kind in ('pexp', 'plog'):
+        sc = list(parr(a.params).reshape(-1))
+        if len(sc) == 1:
+            sc = sc * len(args)
+        T = [((e, -o * kinv, s_) if kind == 'pexp' else (o * kinv, e, s_)) for e, o, s_ in zip(args, offs, sc)]
+    elif kind == 'softplus':
+        for e, o in zip(args, offs):
+            oo = o * kinv
+            t1, t2 = fresh('t'), fresh('t')
+            T += [(e + oo, t1, one), (oo, t2, one)]
+            G.append(one - t1 - t2)
+    elif kind == 'sumexp':
+        ts = [fresh('t') for _ in args]
+        T = [(e, t, one) for e, t in zip(args, ts)]
+        G.append(-offs[0] * kinv - sum(ts, Poly()))
+    elif kind == 'sumlog':
+        ws = [fresh('w') for _ in args]
+        T = [(w, e, one) for e, w in zip(args, ws)]
+        G.append(sum(ws, Poly()) - offs[0] * kinv)
+    elif kind == 'entropy':
+        ws = [fresh('w') for _ in args]
+        T = [(w, one, e) for e, w in zip(args, ws)]
+        G.append(sum(ws, Poly()) - offs[0] * kinv)
+    elif kind == 'kldiv':
+        qs = [frac(v) for v in np.array(a.params, dtype=object).reshape(-1)]
+        if len(qs) == 1:
+            qs = qs * len(args)
+        us = [fresh('w') for _ in args]
+        T = [(u, one, e * (1 / q)) for e, u, q in zip(args, us, qs)]
+        G.append(-offs[0] * kinv + sum((u * q for u, q in zip(us, qs)), Poly()))
+    else:
+        raise NotImplementedError(kind)
+    return T, G
 
 
 def direct_le(a, env):
@@ -443,6 +516,11 @@ def cons_eval(c, assign, tol=1e-7):
     return worst
 
 
+def _exp(v):
+    import math
+    return math.exp(v) if v < 700 else 1e304
+
+
 def atom_eval(a, args):
     import math
     k = a.kind
@@ -462,11 +540,11 @@ def atom_eval(a, args):
         Q = np.array([[float(frac(v)) for v in row] for row in a.params])
         return [float(args @ Q @ args)]
     if k == 'exp':
-        return [math.exp(v) for v in args]
+        return [_exp(v) for v in args]
     if k == 'log':
         return [math.log(v) if v > 0 else -1e300 for v in args]
     if k == 'softplus':
-        return [math.log1p(math.exp(v)) for v in args]
+        return [math.log1p(_exp(v)) if v < 700 else v for v in args]
     if k == 'entropy':
         return [float(-sum(v * math.log(v) for v in args if v > 0))] if all(v >= 0 for v in args) else [-1e300]
     if k == 'kldiv':
@@ -474,7 +552,7 @@ def atom_eval(a, args):
         qs = qs * len(args) if len(qs) == 1 else qs
         return [float(sum(v * math.log(v / q) for v, q in zip(args, qs) if v > 0))] if all(v >= 0 for v in args) else [1e300]
     if k == 'sumexp':
-        return [float(sum(math.exp(v) for v in args))]
+        return [float(sum(_exp(v) for v in args))]
     if k == 'sumlog':
         return [float(sum(math.log(v) for v in args))] if all(v > 0 for v in args) else [-1e300]
     if k == 'power':
